@@ -1618,14 +1618,180 @@ theorem mayLoss_tail_branch (m : BufMap) (a b fuel : Nat) (hab : a < b) (hb : b 
   simp only [BufMap.abs]
   rw [u3]
 
--- OPEN: `mayLoss_refines` (the top-level theorem) is not proved.  What is missing:
---   (1) the three branches of `mayLoss` that only call `mayLostFrom` (`Ok(idx)` on a `Recved` run, `Err(0)`,
---       `Err(idx)` after a `Recved` run) follow from `mayLostFrom_abs` + `lowerBound_spec` (hypotheses `hP1 hP2 hR`
---       from `lowerBound_spec`; `hnp` from "every run is non-empty, so a run `(o, c)` with `a ≤ o < b` has
---       `m.abs o = c ≠ pending`"); the glue (`bsearch` unfolding, `lastCol (take (idx+1))`) is not written;
---   (2) the `mayLossTail` branches (range starts inside/at a `Flighting` or `Lost` run): needs a characterisation of
---       `lossScan` (same shape as `mlfScan_spec` without the recolouring), of `sameBefore`, of `splice`
---       (`= .ok (l.take ds ++ insS.toList ++ insE.toList ++ l.drop de)`), then `mayLostFrom_spec` for the recursive
---       call at a `Recved` run and a colour computation in the style of `colour_reduce`.
+theorem mayLoss_hit_lost (m : BufMap) (a b : Nat) (hwf : WF m) (hab : a < b) (hb : b ≤ m.size)
+    (hnp : ∀ x, a ≤ x → x < b → m.abs x ≠ Colour.pending) (P S' : List Run)
+    (hr : m.runs = P ++ (a, Colour.lost) :: S') (hP : ∀ r ∈ P, r.1 < a) (hS : ∀ r ∈ S', a < r.1) :
+    ∃ m', mayLoss m a b = .ok m' ∧ WF m' ∧ m'.size = m.size ∧
+      ∀ x, m'.abs x = setRange m.abs a b lostOf x := by
+  have hbs : bsearch m.runs a = (true, P.length) := by rw [hr]; exact bsearch_hit a P S' _ hP hS
+  have hget : m.runs[P.length]? = some (a, Colour.lost) := by rw [hr]; simp
+  have hunf : mayLoss m a b
+      = mayLoss.mayLossTail m m.runs (P.length + 1) false (P.length + 1) Colour.lost a b (m.runs.length + 2) := by
+    unfold mayLoss
+    simp only [hbs, hget]
+    rfl
+  have h := mayLoss_tail_branch m a b (m.runs.length + 2) hab hb P S' (P ++ [(a, Colour.lost)]) [] P
+    [(a, Colour.lost)] Colour.lost false
+    (fun x hx => by rw [abs_of_lt m x hx, hr])
+    (by rw [← hr]; exact hwf.sorted) (by rw [← hr]; exact hwf.lt_size) (Or.inr rfl)
+    (fun r hr' hrb => run_not_pending m hwf a b hnp r (by rw [hr]; simp [hr']) (Nat.le_of_lt (hS r hr')) hrb)
+    (by rw [hr]; simp; omega) (by simp) rfl (by simp) (by simp)
+  have e1 : (P ++ [(a, Colour.lost)]) ++ [] ++ S' = m.runs := by rw [hr]; simp
+  have e2 : (P ++ [(a, Colour.lost)]).length = P.length + 1 := by simp
+  simp only [List.length_nil, Nat.add_zero] at h
+  rw [e1, e2] at h
+  rw [hunf]
+  exact h
+
+theorem mayLoss_hit_flighting (m : BufMap) (a b : Nat) (hwf : WF m) (hab : a < b) (hb : b ≤ m.size)
+    (hnp : ∀ x, a ≤ x → x < b → m.abs x ≠ Colour.pending) (P S' : List Run)
+    (hr : m.runs = P ++ (a, Colour.flighting) :: S') (hP : ∀ r ∈ P, r.1 < a) (hS : ∀ r ∈ S', a < r.1) :
+    ∃ m', mayLoss m a b = .ok m' ∧ WF m' ∧ m'.size = m.size ∧
+      ∀ x, m'.abs x = setRange m.abs a b lostOf x := by
+  have hbs : bsearch m.runs a = (true, P.length) := by rw [hr]; exact bsearch_hit a P S' _ hP hS
+  have hget : m.runs[P.length]? = some (a, Colour.flighting) := by rw [hr]; simp
+  have hset : m.runs.set P.length (a, Colour.lost) = P ++ (a, Colour.lost) :: S' := by
+    rw [hr]; simp
+  have hunf : mayLoss m a b
+      = mayLoss.mayLossTail m (P ++ (a, Colour.lost) :: S')
+          (sameBefore (P ++ (a, Colour.lost) :: S') Colour.lost P.length + 1) false (P.length + 1)
+          Colour.flighting a b (m.runs.length + 2) := by
+    unfold mayLoss
+    simp only [hbs, hget]
+    rw [← hset]
+    rfl
+  obtain ⟨P1, P2, P3, h1, h2, h3, h4⟩ := loss_sameBefore_split Colour.lost (P ++ (a, Colour.lost) :: S') P.length
+    (by simp)
+  have h1' : P ++ (a, Colour.lost) :: S' = (P1 ++ P2) ++ P3 := h1
+  obtain ⟨hPeq, hP3⟩ := List.append_inj h1' (by simp; try omega)
+  subst hPeq hP3
+  have hQne : P2 ++ [(a, Colour.lost)] ≠ [] := by simp
+  have hQ1 : ((P2 ++ [(a, Colour.lost)]).take 1).length = 1 := by
+    rw [List.length_take]; simp
+  have h := mayLoss_tail_branch m a b (m.runs.length + 2) hab hb (P1 ++ P2) S'
+    (P1 ++ (P2 ++ [(a, Colour.lost)]).take 1) ((P2 ++ [(a, Colour.lost)]).drop 1) P1
+    (P2 ++ [(a, Colour.lost)]) Colour.flighting false
+    (fun x hx => by rw [abs_of_lt m x hx, hr])
+    (by rw [← hr]; exact hwf.sorted) (by rw [← hr]; exact hwf.lt_size) (Or.inl rfl)
+    (fun r hr' hrb => run_not_pending m hwf a b hnp r (by rw [hr]; simp [hr']) (Nat.le_of_lt (hS r hr')) hrb)
+    (by rw [hr]; simp; omega) (by simp) (by simp)
+    (by
+      intro r hr'
+      rw [List.mem_append] at hr'
+      rcases hr' with h | h
+      · exact h4 r h
+      · simp at h; subst h; rfl) hQne
+  have e1 : (P1 ++ (P2 ++ [(a, Colour.lost)]).take 1) ++ (P2 ++ [(a, Colour.lost)]).drop 1 ++ S'
+      = (P1 ++ P2) ++ (a, Colour.lost) :: S' := by
+    have := List.take_append_drop 1 (P2 ++ [(a, Colour.lost)])
+    calc (P1 ++ (P2 ++ [(a, Colour.lost)]).take 1) ++ (P2 ++ [(a, Colour.lost)]).drop 1 ++ S'
+        = P1 ++ ((P2 ++ [(a, Colour.lost)]).take 1 ++ (P2 ++ [(a, Colour.lost)]).drop 1) ++ S' := by
+          simp only [List.append_assoc]
+      _ = (P1 ++ P2) ++ (a, Colour.lost) :: S' := by rw [this]; simp
+  have e2 : (P1 ++ (P2 ++ [(a, Colour.lost)]).take 1).length = P1.length + 1 := by
+    rw [List.length_append, hQ1]
+  have e3 : (P1 ++ (P2 ++ [(a, Colour.lost)]).take 1).length + ((P2 ++ [(a, Colour.lost)]).drop 1).length
+      = (P1 ++ P2).length + 1 := by
+    rw [e2, List.length_drop]; simp; omega
+  rw [e3, e2, e1] at h
+  rw [hunf, h2]
+  exact h
+
+theorem mayLoss_miss_tail (m : BufMap) (a b : Nat) (hwf : WF m) (hab : a < b) (hb : b ≤ m.size)
+    (hnp : ∀ x, a ≤ x → x < b → m.abs x ≠ Colour.pending) (P' S : List Run) (o' : Nat) (c : Colour)
+    (hc : c = Colour.flighting ∨ c = Colour.lost)
+    (hr : m.runs = P' ++ (o', c) :: S) (hP : ∀ r ∈ P', r.1 < a) (ho' : o' < a)
+    (hS : ∀ r ∈ S, a < r.1) :
+    ∃ m', mayLoss m a b = .ok m' ∧ WF m' ∧ m'.size = m.size ∧
+      ∀ x, m'.abs x = setRange m.abs a b lostOf x := by
+  have hr' : m.runs = (P' ++ [(o', c)]) ++ S := by rw [hr]; simp
+  have hPP : ∀ r ∈ P' ++ [(o', c)], r.1 < a := by
+    intro r h
+    simp only [List.mem_append, List.mem_singleton] at h
+    rcases h with h | rfl
+    · exact hP r h
+    · exact ho'
+  have hlen : (P' ++ [(o', c)]).length = P'.length + 1 := by simp
+  have hbs : bsearch m.runs a = (false, P'.length + 1) := by
+    rw [hr', ← hlen]; exact bsearch_miss a _ S hPP hS
+  have hget : m.runs[P'.length + 1 - 1]? = some (o', c) := by rw [hr]; simp
+  have hunf : mayLoss m a b
+      = mayLoss.mayLossTail m m.runs (P'.length + 1) (c == Colour.flighting) (P'.length + 1) c a b
+          (m.runs.length + 2) := by
+    unfold mayLoss
+    simp only [hbs, hget]
+    rcases hc with rfl | rfl <;> rfl
+  have hs := hwf.sorted
+  rw [hr', loss_sorted_append] at hs
+  obtain ⟨hs1, hs2, hs3⟩ := hs
+  have hasz : a < m.size := by omega
+  have hsV : Sorted ((P' ++ [(o', c)]) ++ (a, c) :: S) := by
+    rw [loss_sorted_append]
+    refine ⟨hs1, loss_sorted_cons.mpr ⟨hS, hs2⟩, ?_⟩
+    intro r1 h1 r2 h2
+    simp only [List.mem_cons] at h2
+    rcases h2 with rfl | h2
+    · exact hPP r1 h1
+    · exact hs3 r1 h1 r2 h2
+  have hszV : ∀ r ∈ (P' ++ [(o', c)]) ++ (a, c) :: S, r.1 < m.size := by
+    intro r h
+    rw [List.mem_append, List.mem_cons] at h
+    rcases h with h | rfl | h
+    · exact hwf.lt_size r (by rw [hr']; exact List.mem_append_left _ h)
+    · exact hasz
+    · exact hwf.lt_size r (by rw [hr']; simp [h])
+  have hvirt : ∀ x, x < m.size → m.abs x = colourAt ((P' ++ [(o', c)]) ++ (a, c) :: S) Colour.recved x := by
+    intro x hx
+    rw [abs_of_lt m x hx, hr]
+    have e : (P' ++ [(o', c)]) ++ (a, c) :: S = P' ++ ((o', c) :: (a, c) :: S) := by simp
+    rw [e]
+    apply colourAt_prefix_congr
+    intro p
+    simp only [colourAt]
+    split
+    · rfl
+    · split
+      · rename_i hxa
+        exact colourAt_lt_all S c x (fun r h => by have := hS r h; omega)
+      · rfl
+  have hnpT : ∀ r ∈ S, r.1 < b → r.2 ≠ Colour.pending :=
+    fun r h hrb => run_not_pending m hwf a b hnp r (by rw [hr]; simp [h]) (Nat.le_of_lt (hS r h)) hrb
+  have hfuel : S.length < m.runs.length + 2 := by rw [hr]; simp; omega
+  have e1 : (P' ++ [(o', c)]) ++ [] ++ S = m.runs := by rw [hr]; simp
+  rw [hunf]
+  rcases hc with rfl | rfl
+  · have h := mayLoss_tail_branch m a b (m.runs.length + 2) hab hb (P' ++ [(o', Colour.flighting)]) S
+      (P' ++ [(o', Colour.flighting)]) [] (P' ++ [(o', Colour.flighting)]) [(a, Colour.lost)] Colour.flighting true
+      hvirt hsV hszV (Or.inl rfl) hnpT hfuel (by simp) rfl (by simp) (by simp)
+    simp only [List.length_nil, Nat.add_zero] at h
+    rw [e1, hlen] at h
+    exact h
+  · have h := mayLoss_tail_branch m a b (m.runs.length + 2) hab hb (P' ++ [(o', Colour.lost)]) S
+      (P' ++ [(o', Colour.lost)]) [] P' [(o', Colour.lost), (a, Colour.lost)] Colour.lost false
+      hvirt hsV hszV (Or.inr rfl) hnpT hfuel (by simp) (by simp) (by simp) (by simp)
+    simp only [List.length_nil, Nat.add_zero] at h
+    rw [e1, hlen] at h
+    exact h
+
+/-- **`may_loss` refines the per-byte specification** -/
+theorem mayLoss_refines (m : BufMap) (a b : Nat) (hwf : WF m) (hab : a < b) (hb : b ≤ m.size)
+    (hnp : ∀ x, a ≤ x → x < b → m.abs x ≠ .pending) :
+    ∃ m', mayLoss m a b = .ok m' ∧ WF m' ∧ m'.size = m.size ∧
+      ∀ x, m'.abs x = setRange m.abs a b lostOf x := by
+  have hpa : m.abs a ≠ Colour.pending := hnp a (Nat.le_refl _) hab
+  rcases loss_shape m a hwf (by omega) with ⟨P, c, S', hr, hP, hS, hc⟩ | ⟨hS, _⟩ | ⟨P', o', c, S, hr, hP, ho', hS, hc⟩
+  · rw [hc] at hpa
+    cases c with
+    | pending => exact absurd rfl hpa
+    | recved => exact mayLoss_hit_recved m a b hwf hb hnp P S' hr hP hS
+    | flighting => exact mayLoss_hit_flighting m a b hwf hab hb hnp P S' hr hP hS
+    | lost => exact mayLoss_hit_lost m a b hwf hab hb hnp P S' hr hP hS
+  · exact mayLoss_miss_zero m a b hwf hb hnp hS
+  · rw [hc] at hpa
+    cases c with
+    | pending => exact absurd rfl hpa
+    | recved => exact mayLoss_miss_recved m a b hwf hb hnp P' S o' hr hP ho' hS
+    | flighting => exact mayLoss_miss_tail m a b hwf hab hb hnp P' S o' _ (Or.inl rfl) hr hP ho' hS
+    | lost => exact mayLoss_miss_tail m a b hwf hab hb hnp P' S o' _ (Or.inr rfl) hr hP ho' hS
 
 end GmQuic.BufMap
